@@ -1,7 +1,7 @@
 (* C05 — tokens come only from a 200 JSON success; each reply maps to one typed outcome.
    Statements only; proofs in proofs/Endpoint_proofs.v.  The theorems hold for ANY pair of
    decoders (success document / error document), so for every request kind and response type. *)
-From OA Require Import Bytes Endpoint Endpoint_proofs.
+From OA Require Import Bytes Json Endpoint Endpoint_proofs Serde Http Http_proofs.
 Local Open Scope N_scope.
 
 Section C05.
@@ -66,6 +66,25 @@ Section C05.
          resp (rp_status rp) (rp_ct rp) (rp_body rp)).
   Proof. intros Req req client. exact (do_request_calls T E RE parse_ok parse_err req client). Qed.
 End C05.
+
+(* the table instantiated with the crate's token decoder (any extension schema) *)
+Theorem C05_no_token_unless_200 :
+  forall (EF : Type) (ef : ef_schema EF) status ct body v,
+    token_outcome ef status ct body = OSuccess v -> status = 200.
+Proof. exact @non200_never_token. Qed.
+
+Theorem C05_200_error_doc_no_token :
+  forall (EF : Type) (ef : ef_schema EF) ct body m v,
+    json_parse body = Some (JObj m) ->
+    (forall s, find_key (s2b "access_token") m <> Some (JStr s true)) ->
+    token_outcome ef 200 ct body <> OSuccess v.
+Proof. exact @error_doc_200_never_token. Qed.
+
+Theorem C05_token_needs_whole_document :
+  forall (EF : Type) (ef : ef_schema EF) status ct body v,
+    token_outcome ef status ct body = OSuccess v ->
+    exists j, json_parse body = Some j /\ decode_token ef j = Some v.
+Proof. exact @token_needs_whole_document. Qed.
 
 Example C05_example :
   is_json_ct (s2b "Application/JSON; charset=utf-8") = true /\
